@@ -323,8 +323,19 @@ func genC12(cfg Config, emit Emit) error {
 
 // --- executors -----------------------------------------------------------------------------------
 
+// staleHistory: before the archive is decoded, the process has held other, never verified bytes under
+// the links it mentions (a block object is a value: making one must not influence a later decode)
+func staleHistory(blocks []rawBlock) {
+	for _, b := range blocks {
+		if _, c, err := cid.CidFromBytes(b.cid); err == nil {
+			block.NewBlock(cidlink.Link{Cid: c}, []byte("stale bytes never checked"))
+		}
+	}
+}
+
 func execCarRT(a []string) Result {
 	roots, blocks := parseArchive(a[0], a[1])
+	staleHistory(blocks)
 	enc, err := encodeArchive(roots, blocks)
 	if err != nil {
 		return Result{Impl: "encode-error:" + err.Error()}
